@@ -3,9 +3,14 @@ import DoviModel.Model.PqTable
 # Kernel evaluation of the PQ certificate checkers (property C19)
 
 Core Lean only.  Every `*_c<i>` theorem here is closed by `decide +kernel`: the kernel evaluates the integer
-checkers of `Model/PqTable.lean` (big-integer powers, GMP-accelerated `Nat` arithmetic) on a slice of the table;
-the slices are separate theorems only so that they are checked in parallel.  The lifting to statements about the
-real function `nitsToPq` is in `Proofs/PqReal.lean`.
+checkers of `Model/PqTable.lean` (big-integer powers, GMP-accelerated `Nat` arithmetic) on a slice of the table
+(slices only keep a single kernel evaluation small, and make a failing certificate name its slice).  The whole file
+takes about a minute to check once; it is cached by lake afterwards.  The lifting to statements about the real
+function `nitsToPq` is in `Proofs/PqReal.lean`.
+
+What is evaluated: `bndCheck j` for all 4095 tie points (4 big-power inequalities each), `nitsCheck n` and
+`minLumCheck k` for all 10001 + 10001 table entries (bracket membership), `thrCheck i` for the 199 rounding
+thresholds, `round100Check c` / `round1000Check c` for all 4096 codes.
 -/
 namespace Dovi.PqTable
 
